@@ -249,3 +249,93 @@ Proof.
   - destruct Hab as (A & B & C). unfold Above. rewrite Ed. auto.
   - apply Forall_upd_list; auto.
 Qed.
+
+(** creating a new DD block at the end of file *)
+Definition new_blk (e ndds : Z) : block := mkblock e ndds 0 (repeat nil_dd (Z.to_nat ndds)).
+Definition new_img (img : image) (e ndds : Z) : image :=
+  write_at (write_at img e (enc_hdr ndds 0)) (e + hdr_sz) (enc_dds (repeat nil_dd (Z.to_nat ndds))).
+
+Lemma nil_dd_in_range : dd_in_range nil_dd.
+Proof. unfold dd_in_range, nil_dd; simpl. unfold DFTAG_NULL, DFREF_NONE, INVALID_OFFSET, INVALID_LENGTH. lia. Qed.
+
+Lemma new_blk_in_range e ndds : 0 < ndds < 32768 -> 0 <= e -> blk_in_range (new_blk e ndds).
+Proof.
+  intros Hn He. unfold blk_in_range, new_blk; simpl. split; [exact Hn|]. split; [lia|]. split.
+  - apply Forall_forall. intros x Hx. apply repeat_spec in Hx. subst. apply nil_dd_in_range.
+  - split; [|exact He]. unfold zlen. rewrite repeat_length. lia.
+Qed.
+
+Lemma Forall2_refl_or (l : list dd) : Forall2 (fun a b => a = b \/ d_tag a = DFTAG_NULL) l l.
+Proof. induction l; constructor; auto. Qed.
+
+Lemma L_new img0 bl0 img M e T ndds :
+  PF img0 bl0 img M e T -> 0 < ndds < 32768 -> e + 6 + ndds * 12 < 2147483648 ->
+  PF img0 bl0 (new_img img e ndds)
+     (upd_list (length M - 1) (fun m => set_next m e) M ++ [new_blk e ndds])
+     (e + 6 + ndds * 12)
+     (upd_tm (length T - 1) (fun m => set_next m e) T ++ [mktri (new_blk e ndds) (new_blk e ndds) (new_blk e ndds)]).
+Proof.
+  intros PF0 Hn Hb.
+  assert (He : MAGICLEN <= e) by (destruct PF0 as (_ & _ & _ & _ & _ & _ & _ & (_ & _ & C) & _); exact C).
+  assert (He0 : 0 <= e) by (unfold MAGICLEN in He; lia).
+  assert (PF1 : PF img0 bl0 (new_img img e ndds) M e T).
+  { unfold new_img. apply L_write.
+    - apply L_write; auto. destruct PF0 as (_ & _ & _ & _ & _ & _ & _ & Hab & _). exact Hab.
+    - destruct PF0 as (_ & _ & _ & _ & _ & _ & _ & Hab & _). eapply Above_mono; eauto.
+      unfold hdr_sz, NDDS_SZ, OFFSET_SZ. lia. }
+  pose proof (new_blk_in_range e ndds Hn He0) as Rnb.
+  assert (Anb : agrees (new_img img e ndds) (new_blk e ndds)).
+  { unfold agrees. exact (dd_block_roundtrip_lemma img (new_blk e ndds) Rnb). }
+  clear PF0. destruct PF1 as (P0 & I & HD & Hnz & Hp & HM & Hdb & Hab & Hx).
+  destruct I as [Iok Ilk Ifst Iag Idj Img Ilen]. destruct Hab as (A & B & C).
+  set (g := fun m : block => set_next m e).
+  set (nb := new_blk e ndds). set (tn := mktri nb nb nb).
+  assert (Ed : map t_d (upd_tm (length T - 1) g T) = map t_d T) by (apply map_upd_list_same; reflexivity).
+  assert (Er : map region (upd_tm (length T - 1) g T) = map region T) by (apply map_upd_list_same; reflexivity).
+  assert (Em : map t_m (upd_tm (length T - 1) g T) = upd_list (length T - 1) g (map t_m T))
+    by (apply map_upd_list; reflexivity).
+  assert (HlenM : length M = length T) by (rewrite <- HM, map_length; reflexivity).
+  assert (Hok' : Forall tri_ok (upd_tm (length T - 1) g T ++ [tn])).
+  { apply Forall_app. split.
+    - apply Forall_upd_list; auto. intros x Hx' [Cc Mx].
+      assert (Hxd : t_x x = t_d x) by (rewrite Forall_forall in Hx; apply Hx; eapply nth_error_In; eauto).
+      assert (Hm0 : b_next (t_m x) = 0).
+      { apply (linked_last (map t_m T) Ilk). rewrite map_length. apply map_nth_error. exact Hx'. }
+      destruct Cc as (Co & Cn & Cx & Cd & (R1 & R2 & R3 & R4 & R5)).
+      assert (Hd0 : b_next (t_d x) = 0) by (destruct Cx; congruence).
+      split; simpl.
+      + unfold compat, g; simpl. split; [exact Co|]. split; [exact Cn|]. split; [right; exact Hd0|]. split; [exact Cd|].
+        unfold blk_in_range; simpl. split; [exact R1|]. split; [lia|]. split; [exact R3|]. split; [exact R4|exact R5].
+      + unfold mixrel. rewrite Hxd. auto.
+    - constructor; [|constructor]. unfold tri_ok, tn; simpl. split.
+      + unfold compat. split; [reflexivity|]. split; [reflexivity|]. split; [left; reflexivity|].
+        split; [apply Forall2_refl_or|exact Rnb].
+      + unfold mixrel. auto. }
+  assert (Hag' : Forall (fun t => agrees (new_img img e ndds) (t_x t)) (upd_tm (length T - 1) g T ++ [tn])).
+  { apply Forall_app. split; [apply Forall_upd_list; auto|]. constructor; [exact Anb|constructor]. }
+  assert (Hdj' : pdisj ((0, MAGICLEN) :: map region (upd_tm (length T - 1) g T ++ [tn]))).
+  { rewrite map_app, Er. simpl map.
+    change ((0, MAGICLEN) :: map region T ++ [region tn]) with (((0, MAGICLEN) :: map region T) ++ [region tn]).
+    apply pdisj_snoc; auto. constructor.
+    - unfold disj, region, tn, nb, new_blk; simpl. left. exact He.
+    - apply Forall_map. rewrite Forall_map in A. rewrite Forall_forall in *. intros t Ht.
+      unfold disj, region, tn, nb, new_blk; simpl. left. apply A. exact Ht. }
+  apply PF_intro; auto.
+  - constructor; auto.
+    + rewrite map_app, Em. simpl map. replace (length T - 1)%nat with (length (map t_m T) - 1)%nat by (rewrite map_length; reflexivity).
+      apply linked_snoc; auto. unfold MAGICLEN in He. lia.
+    + destruct T as [|t0 T0]; [contradiction|]. unfold upd_tm. destruct T0; simpl; exact Ifst.
+    + apply inv_len_derive; auto. simpl in Hdj'. destruct Hdj' as [_ Hd']. exact Hd'.
+  - destruct HD as (D2 & HD). exists (D2 ++ [nb]). rewrite map_app, Ed, HD, <- app_assoc. reflexivity.
+  - rewrite map_app, Em, HM, HlenM. reflexivity.
+  - intros d b H1 H2 H3 Hb'. rewrite map_app, Ed in Hb'. apply in_app_or in Hb'. destruct Hb' as [Hb'|[<-|[]]].
+    + apply Hdb; auto.
+    + left. simpl. apply B; auto.
+  - unfold Above. rewrite map_app, Ed. split; [|split].
+    + apply Forall_app. split.
+      * rewrite Forall_forall in *. intros b Hb'. specialize (A b Hb'). lia.
+      * constructor; [|constructor]. unfold nb, new_blk, block_end, start_block_end; simpl. lia.
+    + intros d H1 H2 H3. specialize (B d H1 H2 H3). lia.
+    + lia.
+  - apply Forall_app. split; [apply Forall_upd_list; auto|]. constructor; [reflexivity|constructor].
+Qed.
